@@ -61,3 +61,16 @@ reg("C04", GEN_TXT + "distinct = distinct (shape, digest); non-trivial = at leas
 reg("C09", GEN_TXT + "child exits land at arbitrary monitoring instants (LINE/CALL/PY_START/C_RETURN of "
     "conductor.* and subprocess.Popen); distinct = distinct (shape, digest); non-trivial = at least one "
     "task process ran to completion under the interposed kernel", quick_count=1500)
+reg("C05", "scenario = 2-5 tasks (mostly experiments) + history interleaving git operations (commit, branch, "
+    "checkout incl. detached, merge, dirty, init of a foreign repository) with cond run (default/--again/"
+    "--at-least SYM/--this-commit), cond where, config toggles of disable_git and archive/restore of foreign "
+    "rows; distinct = distinct (shape, digest); non-trivial = a run or where whose outcome depends on the "
+    "selection rule (model plan non-empty, or flag validation exercised)", quick_count=1500)
+reg("C07", GEN_TXT + "args/options of every primitive type, nested packages, invocation from drawn working "
+    "directories, conductor.lib evaluated inside the stub child under its environment; distinct = distinct "
+    "(shape, digest); non-trivial = at least one task process was spawned and its argv/cwd/env compared with "
+    "the model", quick_count=1500)
+reg("C08", GEN_TXT + "histories of runs that succeed, fail, are aborted by SIGINT/SIGTERM or killed, with "
+    "clock gaps of 0 s, sub-second, backwards steps and restores of archives whose timestamps lie in the "
+    "future; distinct = distinct (shape, digest); non-trivial = an experiment was spawned (freshness checked) "
+    "or an operation ran while recorded versions existed (tree hashes compared)", quick_count=1200)
